@@ -59,6 +59,7 @@ type decompressor struct {
 	rBuf          *bufio.Reader
 	err           error
 	srcErr        error
+	outputFull    bool // the last decoding step stopped at a full output window, not for lack of input
 	peekSize      int
 	eof           bool
 }
@@ -79,6 +80,7 @@ func (r *decompressor) Reset(under io.Reader, _ []byte) error {
 	r.eof = false
 	r.err = nil
 	r.srcErr = nil
+	r.outputFull = false
 	r.writePos = 0
 	r.readPos = 0
 	r.state.reset()
@@ -129,7 +131,9 @@ func (f *decompressor) step() (err error) {
 		// whatever has arrived: decoding must not wait for a full buffer.
 		loaded := int(f.state.bitsLen / 8)
 		err = f.srcErr
-		if err == nil {
+		if err == nil && !f.outputFull {
+			// (after a stop at a full output window the bit buffer may still
+			// hold decodable input: go on with what is there)
 			_, err = f.rBuf.Peek(loaded + 1)
 		}
 		state.input, _ = f.rBuf.Peek(f.rBuf.Buffered())
@@ -156,6 +160,7 @@ func (f *decompressor) step() (err error) {
 
 	startInputSize, startBitsLen := len(f.state.input), int(f.state.bitsLen)
 	err = f.decomperss()
+	f.outputFull = err == errOutputOverflow
 	f.state.rOffset(startInputSize, startBitsLen)
 
 	if isError(err) || (err == errEndInput && f.eof) {
